@@ -76,6 +76,8 @@ UClasses ==
    DR   |-> [Cls("dataclass", << FD("a", TInt, DInt(0)), FD("b", TInt, DInt(0)), FD("c", TInt, DInt(0)) >>)
                EXCEPT !.depreq = << <<"a", <<"b">> >> >>],
    REC  |-> Cls("dataclass", << F("a", TInt), FD("c", TOpt(TObj("REC")), DNull) >>),
+   \* a constraint carried by the REFERENCE to the recursive class (field metadata)
+   RC   |-> Cls("dataclass", << F("a", TInt), [FD("c", TOpt(TObj("RC")), DNull) EXCEPT !.cons = << <<"min_props", 2>> >>] >>),
    MA   |-> Cls("dataclass", << F("a", TInt), FD("b", TOpt(TObj("MB")), DNull) >>),
    MB   |-> Cls("dataclass", << FD("a", TOpt(TObj("MA")), DNull), FD("x", TStr, DStr("")) >>),
    CF   |-> Cls("dataclass", << [F("a", TInt) EXCEPT !.cons = << <<"min", 2>>, <<"max", 8>> >>],
@@ -309,7 +311,17 @@ Cand(ctx, T, n) ==
              valsOf(f) == IF f.flat THEN PickSome(Atoms, 2)
                           ELSE IF f.props # "no" THEN sub(f.type.vt)
                           ELSE PickSome(ValidAtoms(ctx, FType(f)), 1) \cup PickSome(InvalidAtoms(ctx, FType(f)), 1)
-                               \cup (IF n > 0 /\ f.type.k \notin {"prim"} THEN PickSome(Cand(ctx, FType(f), n - 1), W) ELSE {})
+                               \* structured candidates first: PickSome alone may keep atoms only
+                               \cup (IF n > 0 /\ f.type.k \notin {"prim"}
+                                     THEN LET cs   == Cand(ctx, FType(f), n - 1)
+                                              conf == {x \in cs : x.k = "obj" /\ Conforms(ctx, FType(f), x)}
+                                              \* the conforming objects with the most / the fewest keys: those a
+                                              \* container constraint carried by the FIELD can still reject
+                                              big  == {x \in conf : \A y \in conf : Len(y.o) <= Len(x.o)}
+                                              small == {x \in conf : \A y \in conf : Len(y.o) >= Len(x.o)}
+                                          IN PickSome({x \in cs : x.k \in {"obj", "arr"}}, W)
+                                             \cup PickSome(big, 1) \cup PickSome(small, 1) \cup PickSome(cs, 1)
+                                     ELSE {})
              \* ... and the own names of the aggregate fields, which are not properties of the object
              aggNames == {Ext(ctx, fs[i]) : i \in {j \in DOMAIN fs : fs[j].flat \/ fs[j].props # "no"}}
              allKeys == SetToSeq(UNION {keysOf(fs[i]) : i \in DOMAIN fs} \cup {"zz"} \cup aggNames)
